@@ -221,6 +221,22 @@ def sqrt_battery(seed):
     return None
 
 
+def sqrt_case_items(base, chk):
+    """the case analysis of SqrtRatio's own logic (dlog mode on the real body): 16 residue classes + the zero cases; used by
+    C16 and re-discharged by the checks that rely on the SqrtRatio contract (C04)"""
+    cases = []
+    for ca in range(4):
+        for cb in range(4):
+            cases.append(("dlog %d,%d" % (ca, cb), lambda ca=ca, cb=cb: dlog_case(base, chk, ca, cb)))
+    cases += [("u=0", lambda: dlog_case(base, chk, 0, 0, uzero=True)), ("v=0", lambda: dlog_case(base, chk, 0, 0, vzero=True)), ("u=v=0", lambda: dlog_case(base, chk, 0, 0, True, True))]
+    return cases
+
+
+def sqrt_settle(chk):
+    from sym import l1 as L1m
+    L1m.settle(chk, [o for o in chk.obs if o.name.startswith("SqrtRatio[")], lambda: sqrt_battery(chk.seed), "Element.SqrtRatio")
+
+
 def run(chk):
     prog, base = setup(chk)
     chk.bounds = ["all (u,v): non-zero pairs as g^alpha, g^beta with alpha,beta in Z/(p-1) split into the 16 residue classes mod 4 (exhaustive, code independent); the three zero cases separately",
@@ -230,11 +246,7 @@ def run(chk):
     items = list(field_contracts(base, chk))
     items += [("reduce", lambda: K.k_reduce(base, chk)), ("Bytes", lambda: K.k_bytes(base, chk)), ("Equal/IsNegative", lambda: K.k_equal_isneg(base, chk)),
               ("Pow22523", lambda: K.k_chain(base, chk, "Pow22523")), ("Select/Swap", lambda: K.k_select_swap(base, chk)), ("Absolute", lambda: k_absolute(base, chk))]
-    cases = []
-    for ca in range(4):
-        for cb in range(4):
-            cases.append(("dlog %d,%d" % (ca, cb), lambda ca=ca, cb=cb: dlog_case(base, chk, ca, cb)))
-    cases += [("u=0", lambda: dlog_case(base, chk, 0, 0, uzero=True)), ("v=0", lambda: dlog_case(base, chk, 0, 0, vzero=True)), ("u=v=0", lambda: dlog_case(base, chk, 0, 0, True, True))]
+    cases = sqrt_case_items(base, chk)
     def aliased():
         from .c11 import k_sqrt_alias
         k_sqrt_alias(base, chk)
@@ -244,8 +256,8 @@ def run(chk):
     sv = sum(int(l) << (51 * i) for i, l in enumerate(sq)) % P
     chk.fact("sqrtM1^2 = -1 mod p and sqrtM1 = 2^((p-1)/4) (the ristretto255 SQRT_M1 constant)", (sv * sv + 1) % P == 0 and sv == pow(2, (P - 1) // 4, P) and sv == 19681161376707505956807079304988542015446066515923890162744021073123829784752, [F + "init"], "concrete")
     chk.fact("(p-1) divisible by 4, (p-5)/8 integral, (p-1)/4 = 1 + 2*(p-5)/8", N % 4 == 0 and (P - 5) % 8 == 0 and N // 4 == 1 + 2 * C, [], "arithmetic")
+    sqrt_settle(chk)
     from sym import l1 as L1m
-    L1m.settle(chk, [o for o in chk.obs if o.name.startswith("SqrtRatio[")], lambda: sqrt_battery(chk.seed), "Element.SqrtRatio")
     def alias_sqrt_battery():
         from .c11 import alias_battery
         return alias_battery(chk.seed)
